@@ -586,6 +586,9 @@ func (s *Module) AddMPTNodes(nodes [][]byte) error {
 		if r.Err != nil {
 			return fmt.Errorf("failed to decode MPT node: %w", r.Err)
 		}
+		if typ := n.Node.Type(); typ == mpt.HashT || typ == mpt.EmptyT {
+			return fmt.Errorf("unexpected MPT node type %d", typ)
+		}
 		err := s.restoreNode(n.Node)
 		if err != nil {
 			return err
